@@ -81,60 +81,55 @@ fn h_map_3() {
 fn h_map_4() {
     ck_map_patterns();
 }
-// ---------------- MapKeys::join: the key table of `⊂` on two maps ----------------
-fn table_of(keys: &[u8], indices: &[usize]) -> MapKeys {
-    let mut t = Vec::with_capacity(8);
-    t.extend_from_slice(keys);
-    let mut ix = Vec::with_capacity(8);
-    ix.extend_from_slice(indices);
-    MapKeys { keys: Value { rows: keys.to_vec(), rank: 1, table: t, shape: KeyShape }, indices: ix, len: keys.len(), fix_stack: Vec::new() }
-}
-/// self = keys 1 2 3 4 on rows 0..4 (cell order = row order), other = two keys on rows 0..2 (in either cell order).
-/// The caller (Array::join) appends other's rows after self's and then removes the reported rows, highest first.
-fn ck_join(okeys: [u8; 2], oidx: [usize; 2]) {
-    let skeys = [1u8, 2, 3, 4];
-    let mut a = table_of(&skeys, &[0, 1, 2, 3]);
-    let b = table_of(&okeys, &oidx);
-    let r = a.join(b, Context);
-    let mut to_remove = r.unwrap();
-    // what the caller does with the value rows 0..6 (ids): remove the replaced ones, highest first
-    to_remove.sort_unstable();
-    let mut rows: Vec<usize> = Vec::with_capacity(8);
-    rows.extend_from_slice(&[0, 1, 2, 3, 4, 5]);
-    let mut k = to_remove.len();
-    while k > 0 {
-        k -= 1;
-        rows.remove(to_remove[k]);
+// ---------------- MapKeys::join: renumbering after keys of the second map replaced rows of the first ----------------
+/// `join` has re-pointed every replaced key at its new row; the rows in `to_remove` (in the order their keys were
+/// replaced — any order) are about to be deleted by the caller, so every surviving row number must drop by the
+/// number of deleted rows before it.
+fn ck_join_renumber(nremove: usize) {
+    let ix: [usize; 4] = kani::any();
+    let rm: [usize; 2] = kani::any();
+    kani::assume(rm[0] < 6 && rm[1] < 6 && rm[0] != rm[1]);
+    let mut i = 0;
+    while i < 4 {
+        kani::assume(ix[i] < 6 && ix[i] != rm[0] && (nremove < 2 || ix[i] != rm[1]));
+        let mut j = 0;
+        while j < i {
+            kani::assume(ix[j] != ix[i]);
+            j += 1;
+        }
+        i += 1;
     }
-    // every key of the joined table points at its own row: other's row if other has the key, else self's
-    assert!(a.len == a.keys.table.len() && a.indices.len() == a.len && rows.len() == a.len);
-    let mut c = 0;
-    while c < a.keys.table.len() {
-        let key = a.keys.table[c];
-        let want = if key == okeys[0] {
-            4 + oidx[0]
-        } else if key == okeys[1] {
-            4 + oidx[1]
-        } else {
-            (key - 1) as usize
-        };
-        assert!(a.indices[c] < rows.len() && rows[a.indices[c]] == want);
-        c += 1;
+    let mut indices = Vec::with_capacity(4);
+    indices.extend_from_slice(&ix);
+    let mut to_remove = Vec::with_capacity(2);
+    to_remove.extend_from_slice(&rm[..nremove]);
+    let mut mk = MapKeys { keys: Value::default(), indices, len: 4, fix_stack: Vec::new() };
+    mk.join_renumber(to_remove);
+    let mut i = 0;
+    while i < 4 {
+        let mut before = 0;
+        let mut t = 0;
+        while t < nremove {
+            if rm[t] < ix[i] {
+                before += 1;
+            }
+            t += 1;
+        }
+        assert!(mk.indices[i] == ix[i] - before);
+        i += 1;
     }
 }
-//@ id=C16.e3.mapbuild.join.two_replaced props=C16,C09 level=bounded tier=quick budget=900 bound="self = keys 1 2 3 4, other = two keys in 8 fixed patterns (both / one / none already present; ascending and descending row order), dense tables" desc="MapKeys::join: after the caller has removed the reported rows, every key of the joined table points at its own row (other's row where other has the key) and the table describes exactly the rows that are left (key table modelled by the contract of MapKeys::insert)"
+//@ id=C16.e3.mapbuild.join_renumber.one props=C16,C09 level=bounded tier=quick budget=600 bound="4 keys on distinct rows below 6, one row to delete" desc="MapKeys::join, renumbering loop: every surviving row number drops by the number of deleted rows before it"
 #[kani::proof]
-#[kani::unwind(10)]
-fn h_join_two() {
-    let pats: [([u8; 2], [usize; 2]); 8] = [
-        ([1, 3], [0, 1]), ([1, 3], [1, 0]), ([3, 1], [0, 1]), ([2, 4], [0, 1]),
-        ([4, 1], [0, 1]), ([5, 2], [0, 1]), ([5, 6], [0, 1]), ([1, 2], [1, 0]),
-    ];
-    let mut k = 0;
-    while k < pats.len() {
-        ck_join(pats[k].0, pats[k].1);
-        k += 1;
-    }
+#[kani::unwind(6)]
+fn h_join_renumber_1() {
+    ck_join_renumber(1);
+}
+//@ id=C16.e3.mapbuild.join_renumber.two props=C16,C09 level=bounded tier=quick budget=600 bound="4 keys on distinct rows below 6, two rows to delete, reported in either order" desc="the same when two keys of the second map replaced rows of the first, whatever order the rows are reported in"
+#[kani::proof]
+#[kani::unwind(6)]
+fn h_join_renumber_2() {
+    ck_join_renumber(2);
 }
 //@ id=C16.e3.mapbuild.canary props=C16 level=bounded tier=quick expect=fail budget=600 desc="deliberately false: building a map never removes a row"
 #[kani::proof]
